@@ -130,7 +130,8 @@ def generate(ctx):
             rows = [rng.choice(protos) for _ in rows]
         else:
             rows = [rows[0] if rng.random() < 0.4 else r for r in rows]
-        if rng.random() < 0.4:
+        forced = (g % 3 == 0)          # every third group: one residue change reached through different codons AND --append-snps
+        if (rng.random() < 0.4) or forced:
             rows = same_aa_by_different_codons(rng, genome, feats, ref_row, rows)
         msa, recs = vcommon.build_msa(rng, ref_row, rows, refpos=rng.choice(["first", "middle"]))
         if rng.random() < 0.3:
@@ -140,8 +141,8 @@ def generate(ctx):
             extra = "".join(c if r != "-" else "-" for c, r in zip(extra, ref_row))
             msa = msa.rstrip(b"\r\n") + b"\n" + gen.layout(rng, [("REF", extra)], "plain")
         annob = anno.render_genbank(genome, feats, rng) if suffix == "gb" else anno.render_gff(genome, feats, mix=rng)
-        append = rng.random() < 0.5
-        win = rng.random() < 0.5
+        append = (rng.random() < 0.5) or forced
+        win = (rng.random() < 0.5) and not forced
         s, e = (rng.randint(1, len(genome) // 2), rng.randint(len(genome) // 2, len(genome))) if win else (-1, -1)
         if win:
             # window bounds ON a mutated position (or the first base of a codon that carries one): the bounds are inclusive
